@@ -460,4 +460,8 @@ func main() {
 	} else {
 		fmt.Println("srcfacts: unchanged", out)
 	}
+	if err := emitEffects(repo, filepath.Join(filepath.Dir(out), "Effects.v")); err != nil {
+		fmt.Fprintln(os.Stderr, "srcfacts: effects:", err)
+		os.Exit(2)
+	}
 }
